@@ -565,10 +565,15 @@ def _execute_boot(ctx, plan):
         return True
 
     def find_snapshot(data):
-        for i in range(len(snapshots) - 1, -1, -1):
+        # the same content can have been handed over more than once (set, remove -> same dict as before): read the
+        # file as the earliest matching version that is not older than what was already seen, else as an older one
+        older = None
+        for i in range(len(snapshots)):
             if same_snapshot(snapshots[i], data):
-                return i
-        return None
+                if i >= last_seen[0]:
+                    return i
+                older = i
+        return older
 
     def observe(where):
         if path not in fs.files:
@@ -590,8 +595,8 @@ def _execute_boot(ctx, plan):
                           "persisted variables ever had (%s); states: %r" % (data, where, snapshots[-3:]))
             return None
         if idx < last_seen[0] and not same_snapshot(snapshots[idx], snapshots[last_seen[0]]):
-            ctx.violation("went_back", "older_version", "machine_vars.yaml went back from state %d to %d (%s)"
-                          % (last_seen[0], idx, where))
+            ctx.violation("went_back", "older_version", "machine_vars.yaml went back from state %d to %d (%s): file %r; "
+                          "states %r" % (last_seen[0], idx, where, data, snapshots[idx:]))
         last_seen[0] = max(last_seen[0], idx)
         return data
 
